@@ -292,6 +292,115 @@ heap_check(void)
 		    "(%zu elements)", (long long)m->key, (long long)model_min(), n);
 }
 
+/*
+ * Bystanders: a second pointer heap and a second timer queue that stay alive
+ * for the whole process.  Before every operation of a history one of them is
+ * consulted (getmin - a call that changes nothing) or re-keyed (increase /
+ * decrease - no allocation, so the block accounting of the histories is not
+ * disturbed), and its answer is judged against a trivial model of its own.
+ * Two objects of one type are independent: what is done to one must not show
+ * in the other, in either direction.
+ */
+#define NBY 6
+struct byelem {
+	int64_t key;
+	size_t rc;
+};
+static struct byelem bye[NBY];
+static struct ptrheap * BH;
+static struct timerqueue * BQ;
+static struct timeval bytv[NBY];
+static void * byck[NBY];
+static int bytag[NBY];
+static uint64_t n_by;
+
+static int
+by_compar(void * cookie, const void * x, const void * y)
+{
+	const struct byelem * a = x, * b = y;
+
+	(void)cookie;
+	return ((a->key < b->key) ? -1 : (a->key > b->key));
+}
+
+static void
+by_setrc(void * cookie, void * ptr, size_t rc)
+{
+
+	(void)cookie;
+	((struct byelem *)ptr)->rc = rc;
+}
+
+static void
+by_init(void)
+{
+	size_t i;
+
+	if ((BH = ptrheap_init(by_compar, by_setrc, NULL)) == NULL ||
+	    (BQ = timerqueue_init()) == NULL)
+		vh_die("bystander setup failed");
+	for (i = 0; i < NBY; i++) {
+		bye[i].key = (int64_t)(10 * (i + 1));
+		if (ptrheap_add(BH, &bye[i]))
+			vh_die("bystander setup failed");
+		bytv[i].tv_sec = (time_t)(1 + 3 * i);
+		bytv[i].tv_usec = (suseconds_t)(100 * i);
+		if ((byck[i] = timerqueue_add(BQ, &bytv[i], &bytag[i])) == NULL)
+			vh_die("bystander setup failed");
+	}
+}
+
+static void
+by_heap(void)
+{
+	struct byelem * m, * w = &bye[0];
+	size_t i = (size_t)(n_by / 3) % NBY;
+
+	if (failed)
+		return;
+	if (n_by++ % 3 == 2) {
+		/* Re-key one element, up or down. */
+		if ((n_by / 7) & 1) {
+			bye[i].key += 35;
+			ptrheap_increase(BH, bye[i].rc);
+		} else {
+			bye[i].key -= 25;
+			ptrheap_decrease(BH, bye[i].rc);
+		}
+	}
+	for (i = 1; i < NBY; i++)
+		if (bye[i].key < w->key)
+			w = &bye[i];
+	m = ptrheap_getmin(BH);
+	if (m == NULL || m->key != w->key)
+		fail("bystander-heap", "the second heap's minimum is %lld, its least key is %lld",
+		    m ? (long long)m->key : -1LL, (long long)w->key);
+}
+
+static void
+by_timer(void)
+{
+	const struct timeval * m;
+	size_t i = (size_t)(n_by / 3) % NBY, w = 0;
+
+	if (failed)
+		return;
+	if (n_by++ % 3 == 2) {
+		bytv[i].tv_sec += 2;
+		timerqueue_increase(BQ, byck[i], &bytv[i]);
+	}
+	for (i = 1; i < NBY; i++)
+		if (bytv[i].tv_sec < bytv[w].tv_sec ||
+		    (bytv[i].tv_sec == bytv[w].tv_sec &&
+		    bytv[i].tv_usec < bytv[w].tv_usec))
+			w = i;
+	m = timerqueue_getmin(BQ);
+	if (m == NULL || m->tv_sec != bytv[w].tv_sec || m->tv_usec != bytv[w].tv_usec)
+		fail("bystander-timer", "the second queue's minimum is %lld.%06ld, its least time is %lld.%06ld",
+		    m ? (long long)m->tv_sec : -1LL, m ? (long)m->tv_usec : 0L,
+		    (long long)bytv[w].tv_sec, (long)bytv[w].tv_usec);
+}
+
 static void
 hist_heap(uint64_t seed, size_t nops, int mode, int64_t ncreate, int cb,
     int ck, int tiny)
@@ -348,6 +457,8 @@ hist_heap(uint64_t seed, size_t nops, int mode, int64_t ncreate, int cb,
 		size_t n = hc.nlive;
 		unsigned op;
 		struct elem * e;
+
+		by_heap();
 
 		if (phase_left == 0) {
 			static const unsigned pa[] = { 10, 30, 45, 50, 55, 70, 90 };
@@ -743,6 +854,8 @@ hist_timer(uint64_t seed, size_t nops, int tmode, size_t prefill)
 		unsigned op = (unsigned)vh_below(&R, 100);
 		struct tent * e;
 
+		by_timer();
+
 		if (phase_left == 0) {
 			static const unsigned pa[] = { 20, 40, 50, 60, 80 };
 
@@ -915,6 +1028,7 @@ main(void)
 	struct vh_line L = {0};
 
 	vh_stdout_linebuf();
+	by_init();
 	while (vh_readline(&L, stdin)) {
 		const char * op;
 
